@@ -255,6 +255,7 @@ def write_gen_handles(ctx, rep):
     lines.append('Definition OPS : list opdesc := (' + ' ++ '.join(f'OPS_{f}' for f, _, _ in FAMILIES) + ')%list.')
     open(os.path.join(ctx.build, 'GenHandles.v'), 'w').write('\n'.join(lines) + '\n')
     ctx.op_facts = facts
+    json.dump(facts, open(os.path.join(ctx.build, 'op_facts.json'), 'w'), indent=1, sort_keys=True)
 
 
 # ------------------------------------------------------------------ correspondence
@@ -338,7 +339,11 @@ def correspondence(ctx):
     rng = random.Random(ctx.seed)
     facts = getattr(ctx, 'op_facts', None)
     if facts is None:
-        raise RuntimeError('pre_build did not run')
+        # generation failed (reported as the broken obligation 'pre_build'); search() evaluates the property on the
+        # implementation with the pinned handle paths instead
+        ctx.note('correspondence skipped: the alias/handle generation of this run failed')
+        ctx.coverage.update({'evaluations': 0, 'distinct_nontrivial': 0, 'rule': 'generation failed; see search'})
+        return
     hists = gen_histories(rng, ctx.tier, facts)
     named = [[[a[0], OPS[a[1]][0], a[2]] if a[0] == 'call' else a for a in h] for h in hists]
     cmb = combos(ctx.tier, ctx.seed)
@@ -481,6 +486,26 @@ def search(ctx, broken):
         ctx.coverage['violating_configurations'] = cfg_notes
     if any(v.found_input for v in ctx.violations):
         return [v.key for v in ctx.violations if v.found_input]
+    if getattr(ctx, 'op_facts', None) is None:
+        # the generation itself failed (a function left the analysable subset), so the correspondence did not run: evaluate
+        # the history half of the PROPERTY directly on the implementation, with the handle paths pinned from the last
+        # generation that succeeded (tools/corpus/C09/op_facts.json): every result must be pristine whatever the history
+        try:
+            facts = json.load(open(os.path.join(vlib.VERIF, 'tools', 'corpus', 'C09', 'op_facts.json')))
+            rng = random.Random(ctx.seed)
+            hists = gen_histories(rng, 'quick', facts)
+            named = [[[a[0], OPS[a[1]][0], a[2]] if a[0] == 'call' else a for a in h] for h in hists]
+            resh = ctx.run_impl('c09_impl.py', {'mode': 'histories', 'histories': named})
+            for h, r in sorted(zip(named, resh['histories']), key=lambda hr: len(hr[0])):
+                flags = r.get('flags')
+                if isinstance(flags, list) and not all(flags):
+                    calls = [a for a in h if a[0] == 'call']
+                    bad = [c[1] for c, f in zip(calls, flags) if not f]
+                    ctx.violation(f'shared-result:{bad[0]}', f'{bad[0]} returns a result that depends on what callers did to earlier '
+                                  f'results: history {h} -> pristine flags {flags}', {'kind': 'history', 'history': h, 'observed_pristine': flags})
+                    found.append(bad[0])
+        except Exception as ex:      # noqa: BLE001
+            ctx.note(f'history fallback could not run: {ex}')
     # wider sweep on the implementation
     cmb = [{'variant': v, 'layout': lay, 'seed': ctx.seed % 100000 + 5000 + k} for k in range(3) for v in VARIANTS
            for lay in ('1d', 'scalar', '2d')]
